@@ -43,6 +43,8 @@ scen('selector-fresh', lambda o: SUB + mk.class_src('K', ['t = Int(1)', 'u = Ref
      [b'\x03\x01A\x09', b'\x03\x00\x08', b'\x01\x00\x07\x06'], [{}, {'t': 1, 'u': 9}])
 scen('selector-shared', lambda o: SUB + mk.class_src('K', ['t = Int(1)', 'u = Ref(t.chooses({1: Int(2), 2: Data(1), 3: Sub()}), default=0)', 'z = Int(1)'], o),
      [b'\x03\x01A\x09', b'\x03\x00\x08', b'\x01\x00\x07\x06'], [{}, {'t': 1, 'u': 9}])
+scen('selector-two', lambda o: SUB + PT + mk.class_src('K', ['t = Int(1)', 'u = Ref(t.chooses({1: Sub(), 2: Pt(), 3: Int(1)}), default=0)', 'z = Int(1)'], o),
+     [b'\x01\x01A\x09', b'\x02\x05\x06\x08', b'\x01\x00\x07'], [{}, {'t': 3, 'u': 9}])
 scen('selector-seq', lambda o: SUB + mk.class_src('K', ['t = Int(1)', 'l = Ref(t.chooses({1: Int(2), 3: Sub()}), default=0).repeated(2, default=[])'], o),
      [b'\x03\x01A\x00', b'\x03\x00\x02BC', b'\x01\x00\x07\x00\x06'], [{}])
 scen('marker', lambda o: mk.class_src('K', ['d = Data(until_marker=b"\\x00")', 'e = Data(until_marker=b"ab", include_delimiter=True)', 'z = Int(1)'], o),
@@ -312,42 +314,30 @@ def _shard(shard, nshards, payload):
     for scname in SCENARIOS:
         sc = SCENARIOS[scname]
         for gen in (True, False):
-            with mk.World() as w:
-                mod, classes, body = define(scname, gen, w)
-                ops = op_alphabet(sc, classes)
-                prev = ()
-                for d in range(1, depth + 1):
-                    for hist in itertools.product(ops, repeat=d):
-                        if hist[0][0] not in ('new', 'unpack'):
-                            continue            # nothing is live yet: the operation is a no-op
-                        idx += 1
-                        if idx % nshards != shard:
-                            continue
+            with mk.World() as w0:
+                _, classes, _ = define(scname, gen, w0)
+            ops = op_alphabet(sc, classes)
+            for d in range(1, depth + 1):
+                for hist in itertools.product(ops, repeat=d):
+                    if hist[0][0] not in ('new', 'unpack'):
+                        continue            # nothing is live yet: the operation is a no-op
+                    idx += 1
+                    if idx % nshards != shard:
+                        continue
+                    # class objects carry field state: every history runs on freshly defined classes
+                    with mk.World() as w:
+                        mod, classes, body = define(scname, gen, w)
                         err, canon, trans = run_history(mod, sc, hist, classes)
-                        st.inc('histories')
-                        st.inc('transitions', trans)
-                        if canon is not None:
-                            st.add('states', (scname, gen, common.digest(canon)))
-                        st.add('outcomes', (scname, err['sig'] if err else None))
-                        if err:
-                            # confirm on freshly defined classes (field objects carry state between histories)
-                            rep = None
-                            for cand in (hist, prev + hist):
-                                with mk.World() as w2:
-                                    m2, c2, _ = define(scname, gen, w2)
-                                    e2, _, _ = run_history(m2, sc, cand, c2)
-                                if e2:
-                                    rep = (cand, e2)
-                                    break
-                            if rep is None:
-                                st.notes.append('HARNESS: violation in %s %r did not reproduce on fresh classes: %s' % (scname, hist, err['what']))
-                            else:
-                                cand, e2 = rep
-                                st.violate(narrow(scname, e2), '%s (generated=%s) history %r: %s' % (scname, gen, list(cand), e2['what']),
-                                           {'scenario': scname, 'gen': gen, 'hist': [list(o) for o in cand]}, snippet(scname, gen, cand))
-                        elif idx % 20011 == common.SEED % 20011:
-                            st.sample({'scenario': scname, 'generated': gen, 'history': repr(list(hist))})
-                        prev = hist
+                    st.inc('histories')
+                    st.inc('transitions', trans)
+                    if canon is not None:
+                        st.add('states', (scname, gen, common.digest(canon)))
+                    st.add('outcomes', (scname, err['sig'] if err else None))
+                    if err:
+                        st.violate(narrow(scname, err), '%s (generated=%s) history %r: %s' % (scname, gen, list(hist), err['what']),
+                                   {'scenario': scname, 'gen': gen, 'hist': [list(o) for o in hist]}, snippet(scname, gen, hist))
+                    elif idx % 20011 == common.SEED % 20011:
+                        st.sample({'scenario': scname, 'generated': gen, 'history': repr(list(hist))})
     return st
 
 
